@@ -103,6 +103,41 @@ fn ref_record(bytes: &[u8; S], a: usize, b: usize) -> Option<crate::refcodec::Bu
     crate::refcodec::ref_decode::<S>(&seg, b - a, 252, 64008)
 }
 
+/// One step of the reference scan: skips delimiters from `from`, then returns the next
+/// maximal stuff-free segment.  (segment, stopped_or_end, next scan position)
+fn next_segment(bytes: &[u8; S], len: usize, from: usize, lim: u64) -> (Option<(usize, usize)>, bool, usize) {
+    let mut pos = from;
+    let mut stop = false;
+    // the judge sees every skipped delimiter with range = end..end
+    let mut k = 0;
+    while k < S / 2 {
+        if !stop && pos + 2 <= len && bytes[pos] == 0xFE && bytes[pos + 1] == 0xFD {
+            pos += 2;
+            if pos as u64 >= lim {
+                stop = true;
+            }
+        }
+        k += 1;
+    }
+    if stop || pos >= len {
+        return (None, true, pos);
+    }
+    // ... and the first data chunk of a record with range.start = record start
+    if pos as u64 >= lim {
+        return (None, true, pos);
+    }
+    let mut end = len;
+    let mut i = 0;
+    while i < S {
+        if i >= pos && i + 1 < len && end == len && bytes[i] == 0xFE && bytes[i + 1] == 0xFD {
+            end = i;
+        }
+        i += 1;
+    }
+    let next = if end < len { end + 2 } else { len };
+    (Some((pos, end)), false, next)
+}
+
 fn reader_records(max_fixed: usize, witness: bool) {
     let st = unsafe { &mut *std::ptr::addr_of_mut!(STREAM) };
     st.bytes = kani::any();
@@ -116,99 +151,81 @@ fn reader_records(max_fixed: usize, witness: bool) {
     let max_size: usize = if max_fixed < 100 { max_fixed } else { kani::any() };
     let limit: Option<u64> = if kani::any() { None } else { Some(kani::any()) };
     let lim = match limit {
-        Some(l) => l as usize as u64,
+        Some(l) => l,
         None => u64::MAX,
     };
+
+    // ---- reference: up to three segments (S <= 7 bytes hold at most three records) -------------
+    let mut exp_start = [0usize; 3];
+    let mut exp_end = [0usize; 3];
+    let mut exp_plain: [Option<crate::refcodec::Buf>; 3] = [None, None, None];
+    let mut nexp = 0usize;
+    let mut from = 0usize;
+    let mut finished = false;
+    let mut s = 0;
+    while s < 3 {
+        if !finished {
+            let (seg, stop, next) = next_segment(&bytes, len, from, lim);
+            match seg {
+                None => finished = true,
+                Some((a, b)) => {
+                    let _ = stop;
+                    match ref_record(&bytes, a, b) {
+                        Some(plain) if plain.len <= max_size => {
+                            exp_start[nexp] = a;
+                            exp_end[nexp] = b;
+                            exp_plain[nexp] = Some(plain);
+                            nexp += 1;
+                        }
+                        _ => {} // invalid or oversized: skipped silently
+                    }
+                    from = next;
+                }
+            }
+        }
+        s += 1;
+    }
+
+    // ---- implementation ---------------------------------------------------------------------
     let mut reader = StreamReader::new();
     let empty: &[u8] = &[];
-
-    // reference scan position
-    let mut pos = 0usize;
-    let mut done = false;
     let mut call = 0;
+    let mut done = false;
     while call < 3 {
-        call += 1;
-        if done {
-            continue;
-        }
-        // ---- reference: find the next record to return -------------------------
-        let mut expect: Option<(usize, usize, crate::refcodec::Buf)> = None; // start, end, decoded contents
-        let mut guard = 0;
-        while guard < S + 1 {
-            guard += 1;
-            // skip delimiters; the judge sees each of them with range = end..end
-            let mut stop = false;
-            let mut k = 0;
-            while k < S / 2 + 1 {
-                if pos + 2 <= len && bytes[pos] == 0xFE && bytes[pos + 1] == 0xFD {
-                    pos += 2;
-                    if pos as u64 >= lim {
-                        stop = true;
+        if !done {
+            let got = reader.next_record_bytes(empty, StreamReader::chunk_judge(max_size, limit), Some(3));
+            match got {
+                Err(_) => assert!(false, "no I/O error is injected"),
+                Ok(None) => {
+                    assert!(call >= nexp);
+                    done = true;
+                }
+                Ok(Some((iov, range))) => {
+                    assert!(call < nexp);
+                    let plain = exp_plain[call].as_ref().unwrap();
+                    assert_eq!(range.start, exp_start[call] as u64);
+                    assert_eq!(range.end, exp_end[call] as u64);
+                    assert_eq!(iov.total_size(), plain.len);
+                    let j: usize = kani::any();
+                    if j < plain.len {
+                        let sl = match iov.iovs() {
+                            Ok(sl) => sl,
+                            Err(_) => {
+                                assert!(false, "records have no pending placeholder");
+                                return;
+                            }
+                        };
+                        assert!(flat(sl, j) == Some(plain.b[j]));
                     }
-                }
-                k += 1;
-            }
-            if stop || pos == len {
-                done = true;
-                break;
-            }
-            // record = maximal stuff-free segment [pos, end)
-            let mut end = len;
-            let mut i = 0;
-            while i < S {
-                if i >= pos && i + 1 < len && end == len && bytes[i] == 0xFE && bytes[i + 1] == 0xFD {
-                    end = i;
-                }
-                i += 1;
-            }
-            if pos as u64 >= lim {
-                done = true;
-                break;
-            }
-            let dec = ref_record(&bytes, pos, end);
-            let next = if end < len { end + 2 } else { len };
-            match dec {
-                Some(plain) if plain.len <= max_size => {
-                    expect = Some((pos, end, plain));
-                    pos = next;
-                    break;
-                }
-                _ => {
-                    // invalid or oversized: skipped; the terminating delimiter is consumed silently
-                    pos = next;
+                    kani::cover!(exp_start[call] > 0 && plain.len > 0, "record after a skipped prefix or delimiter");
                 }
             }
         }
-        // ---- implementation --------------------------------------------------------
-        let got = reader.next_record_bytes(empty, StreamReader::chunk_judge(max_size, limit), Some(3));
-        match got {
-            Err(_) => assert!(false, "no I/O error is injected"),
-            Ok(None) => {
-                assert!(expect.is_none());
-                done = true;
-            }
-            Ok(Some((iov, range))) => {
-                assert!(expect.is_some());
-                let (s, e, plain) = expect.unwrap();
-                let n = plain.len;
-                assert_eq!(range.start, s as u64);
-                assert_eq!(range.end, e as u64);
-                assert_eq!(iov.total_size(), n);
-                let j: usize = kani::any();
-                if j < n {
-                    let sl = match iov.iovs() {
-                        Ok(sl) => sl,
-                        Err(_) => {
-                            assert!(false, "records have no pending placeholder");
-                            return;
-                        }
-                    };
-                    assert!(flat(sl, j) == Some(plain.b[j]));
-                }
-                kani::cover!(s > 0 && n > 0, "record after a skipped prefix or delimiter");
-            }
-        }
+        call += 1;
     }
+    // every expected record was returned (or the third call was not needed)
+    assert!(done || nexp >= 3);
+    kani::cover!(nexp == 2, "two records");
     kani::cover!(st.pumps >= 4, "several chunks pumped");
     std::mem::forget(reader);
     if witness {
